@@ -341,6 +341,18 @@ func Equal(p1, p2 Ptr) (bool, error) {
 		if l1.Len() != l2.Len() {
 			return false, nil
 		}
+		if l1.flags&isBitList != 0 || l2.flags&isBitList != 0 {
+			if l1.flags&isBitList == 0 || l2.flags&isBitList == 0 {
+				return false, nil
+			}
+			b1, b2 := BitList{l1}, BitList{l2}
+			for i := 0; i < l1.Len(); i++ {
+				if b1.At(i) != b2.At(i) {
+					return false, nil
+				}
+			}
+			return true, nil
+		}
 		if l1.flags&isCompositeList == 0 && l2.flags&isCompositeList == 0 && l1.size != l2.size {
 			return false, nil
 		}
